@@ -25,7 +25,7 @@ def RegOK (s : State) (me : Nat) : Op → Prop
   | .lock m => me ∈ (s.mx m).waiters
   | .acquire k => me ∈ (s.sm k).tokens
   | .bwait b => me ∈ (s.bc b).tokens ∧ (s.R me).wepoch = (s.bc b).epoch
-  | .cwait k => (s.cd k).tok = some me
+  | .cwait k => (s.cd k).tok = some me ∧ (s.cd k).conds ≠ []
   | .join t => ((s.R t).joiner = some me ∧ (s.R t).freed = false ∧ t < s.n) ∨ (s.R me).canceled = true
   | _ => True
 
@@ -96,7 +96,7 @@ theorem setBc_S {s : State} (c : Nat) (x : Bcast) (h : InvS s)
   invS_from h
 
 theorem setCd_S {s : State} (c : Nat) (x : Cond) (h : InvS s)
-    (hreg : ∀ r, susp s r (.cwait c) → x.tok = some r) : InvS (s.setCd c x) := by
+    (hreg : ∀ r, susp s r (.cwait c) → x.tok = some r ∧ x.conds ≠ []) : InvS (s.setCd c x) := by
   invS_from h
 
 theorem setWepoch_S {s : State} {me : Nat} (e : Nat) (h : InvS s) (hr : Run s me) :
